@@ -1648,15 +1648,17 @@ async fn emit_event(
     buffer: &Arc<Mutex<Vec<Event>>>,
     event_log: &EventLog,
 ) {
-    let _ = sender.send(event.clone());
-    #[cfg(feature = "verif")]
-    rip_kernel::verif::point_with("session.emit.after_send", || {
-        format!("{} {}", event.session_id, event.seq)
-    });
+    // Record first, publish second, both under the history lock: a subscriber that subscribes and
+    // then snapshots either finds the frame in the snapshot or receives it live (never neither).
     let mut guard = buffer.lock().await;
     guard.push(event.clone());
     #[cfg(feature = "verif")]
     rip_kernel::verif::point_with("session.emit.after_record", || {
+        format!("{} {}", event.session_id, event.seq)
+    });
+    let _ = sender.send(event.clone());
+    #[cfg(feature = "verif")]
+    rip_kernel::verif::point_with("session.emit.after_send", || {
         format!("{} {}", event.session_id, event.seq)
     });
     let _ = event_log.append(&event);
